@@ -79,7 +79,8 @@ def _f16(prop, sub, v, case):
 def _f17(prop, sub, v, case):
     # GaussianPRF with theta not a multiple of 90 deg integrates over a
     # rotated pixel: grid sum != flux for narrow PSFs
-    return (sub == 'prf_sum' and v.aid == 'prf_grid_sum'
+    return (sub == 'prf_sum'
+            and v.aid in ('prf_grid_sum', 'circular_vs_elliptical_prf')
             and v.info.get('model') == 'GaussianPRF'
             and v.info.get('theta_mod90_nonzero')
             and v.info.get('min_fwhm', 99) < 2.5)
